@@ -271,8 +271,9 @@ def run_vector(acc, q, tier):
 
 def run_scales(acc):
     mech = mechload.load('mechanism')
-    for bounded in (False, True):
+    for bounded in (False, True, np.bool_(True), np.bool_(False), 1, 0):    # the adjacency flag as Python / numpy booleans and 0/1
         m = mech.Mechanism(1.0, 1e-6, bounded)
+        bounded = bool(bounded)
         for sens in (0.5, 1.0, 3.0):
             for eps in EPS:
                 case = {'prim': 'scale-helpers', 'bounded': bounded, 'sens': sens, 'eps': eps}
@@ -303,6 +304,38 @@ def run_scales(acc):
     acc.outcome('scales')
 
 
+def run_mwem_real(acc):
+    """mwem.worst_approximated with a real fitted model (carrying cached clique marginals) and candidates spelled in any attribute order"""
+    from mbi import Domain, GraphicalModel, Factor, CliqueVector
+    mwem = mechload.load('mwem')
+    attrs, sizes = ['A', 'B', 'C'], [2, 3, 2]
+    dom = Domain(attrs, sizes)
+    rng = np.random.RandomState(3)
+    for cliques in ([('A', 'B'), ('B', 'C')], [('A', 'B', 'C')]):
+        model = GraphicalModel(dom, cliques, total=30.0)
+        pots = [(cl, rng.randn(*[sizes[attrs.index(a)] for a in cl])) for cl in model.cliques]
+        model.potentials = CliqueVector({cl: Factor(dom.project(cl), a) for cl, a in pots})
+        model.marginals = model.belief_propagation(model.potentials)
+        joint = O.explicit_joint(attrs, sizes, pots, 30.0)
+        truth = rng.dirichlet(np.ones(12)).reshape(sizes) * 30.0
+        cands = [('B', 'A'), ('A', 'B'), ('C', 'B'), ('A',), ('C', 'A'), ('B', 'C', 'A')]
+        answers = {cl: O.marginal(truth, attrs, cl).flatten() for cl in cands}
+        for eps in EPS:
+            for bounded in (False, True):
+                for penalty in (False, True):
+                    errors = np.array([np.abs(answers[cl] - O.marginal(joint, attrs, cl).flatten()).sum() - (dom.size(cl) if penalty else 0) for cl in cands])
+                    ref = O.exp_mech_probs(errors, eps, 2.0 if bounded else 1.0, 0.5, None)
+                    rec = Recorder()
+                    with E.installed(rec):
+                        mwem.worst_approximated(answers, model, cands, eps, penalty=penalty, bounded=bounded)
+                    case = {'prim': 'mwem.worst_approximated(real model)', 'cliques': [list(c) for c in cliques], 'eps': eps, 'bounded': bounded, 'penalty': penalty}
+                    acc.case(case)
+                    err = compare(rec.p, ref, float(np.max(np.abs(0.5 * eps * errors))))
+                    if err:
+                        acc.violate(case, {'kind': 'miscalibrated', 'prim': 'mwem.worst_approximated', 'bounded': bounded, 'real_model': True}, 'candidates %r: %s' % (cands, err))
+    acc.outcome('mwem-real-model')
+
+
 def vectors(tier):
     L = 3 if tier == 'quick' else 4
     return [list(v) for r in range(1, L + 1) for v in itertools.product(ALPHA, repeat=r)]
@@ -321,6 +354,7 @@ def run_job(job):
     with M.quiet():
         if job.get('scales'):
             run_scales(acc)
+            run_mwem_real(acc)
             return acc
         vs = vectors(job['tier'])
         for i in range(job['lo'], job['hi']):
@@ -336,10 +370,12 @@ def replay(case):
     with M.quiet():
         if case['prim'] in ('scale-helpers',):
             run_scales(acc)
+        elif case['prim'].startswith('mwem.worst_approximated(real'):
+            run_mwem_real(acc)
         else:
             # re-run all primitives on the recorded base vector family and keep the matching primitive
             run_vector(acc, case['q0'], 'thorough')
-    vs = [v for v in acc.violations if v['key'].get('prim') == case['prim'] or case['prim'] == 'scale-helpers']
+    vs = [v for v in acc.violations if v['key'].get('prim') == case['prim'] or case['prim'] == 'scale-helpers' or case['prim'].startswith('mwem.worst_approximated(real')]
     for v in vs:
         print(v['msg'])
     return vs
